@@ -48,8 +48,40 @@ class Atom:
 
 
 def _short(x):
+    if isinstance(x, Poly):
+        return brief(x, 3, 1)
     s = repr(x)
     return s if len(s) < 60 else s[:57] + "..."
+
+
+def brief(p, maxterms=4, depth=2):
+    """Bounded-size rendering of a polynomial (never walks the whole DAG)."""
+    if not p.t:
+        return "0"
+    out = []
+    for k, (m, c) in enumerate(p.t.items()):
+        if k >= maxterms:
+            out.append("...(%d terms)" % len(p.t))
+            break
+        parts = []
+        for a, e in m:
+            if a.kind == "sym":
+                s = repr(a)
+            elif depth <= 0:
+                s = a.kind + "(..)"
+            else:
+                s = "%s(%s)" % (a.kind, ",".join(brief(x, 2, depth - 1) if isinstance(x, Poly) else str(x) for x in a.key[:4]) + (",.." if len(a.key) > 4 else ""))
+            parts.append(s if e == 1 else "%s^%d" % (s, e))
+        mon = "*".join(parts)
+        if not mon:
+            out.append(str(c))
+        elif c == 1:
+            out.append(mon)
+        elif c == -1:
+            out.append("-" + mon)
+        else:
+            out.append("%s*%s" % (c, mon))
+    return " + ".join(out)
 
 
 class DegreeOverflow(Exception):
